@@ -448,6 +448,10 @@ func startServers(cfg *config.Config, stats metrics.Provider) {
 			go func() {
 				var buffer strings.Builder
 				lastPorts := []string{}
+				// the ports on which this loop has started a listener. Only
+				// those are its to close: a tcp route which names the port of
+				// a static listener must not close that listener when it goes.
+				started := map[string]bool{}
 				for {
 					time.Sleep(l.Refresh)
 					if atomic.LoadInt32(&shuttingDown) > 0 {
@@ -483,8 +487,12 @@ func startServers(cfg *config.Config, stats metrics.Provider) {
 						ports = unique(ports)
 					}
 					for _, port := range difference(lastPorts, ports) {
+						if !started[port] {
+							continue
+						}
 						log.Printf("[DEBUG] Dynamic TCP listener on %s eligable for termination", port)
 						proxy.CloseProxy(port)
+						delete(started, port)
 					}
 					for _, port := range ports {
 						l := l
@@ -499,6 +507,7 @@ func startServers(cfg *config.Config, stats metrics.Provider) {
 						}
 						conn.Close()
 						log.Printf("[INFO] Starting dynamic TCP listener on port %s ", port)
+						started[port] = true
 						go func() {
 							h := &tcp.DynamicProxy{
 								DialTimeout: cfg.Proxy.DialTimeout,
